@@ -383,8 +383,26 @@ class Gen:
                 sql = "%s CROSS JOIN %s" % (sql, rsql) if kind == "cross" else "%s, %s" % (sql, rsql)
                 sx = "(join cross %s %s - %d %d)" % (sx, rsx, la, len(rcols))
             else:
-                on = self.join_cond(both, scope_cols, rscope, outer, classes)
+                using = None
+                if n == 2 and self.o.get("using", True) and r.chance(20):
+                    # JOIN ... USING (c): equality on the common column; the unqualified name c denotes the merged
+                    # column (the right side's value for RIGHT JOIN, the left side's otherwise)
+                    common = [(a, b) for a in scope_cols for b in rscope
+                              if a.sql.split(".")[-1] == b.sql.split(".")[-1] and a.ty == b.ty and a.ty != "bool"]
+                    if common:
+                        using = r.choice(common)
                 classes.add("join_" + kind)
+                if using:
+                    a, b = using
+                    cn = a.sql.split(".")[-1]
+                    classes.add("using")
+                    sql = "%s %s JOIN %s USING (%s)" % (sql, kind.upper(), rsql, cn)
+                    sx = "(join %s %s %s (cmp eq (col 0 %d) (col 0 %d)) %d %d)" % (kind, sx, rsx, a.idx, b.idx, la, len(rcols))
+                    merged = Col(cn, a.ty, b.idx if kind == "right" else a.idx)
+                    # other columns that the two sides share by name stay reachable through their qualified names only
+                    scope_cols = scope_cols + rscope + [merged]
+                    continue
+                on = self.join_cond(both, scope_cols, rscope, outer, classes)
                 sql = "%s %s JOIN %s ON %s" % (sql, kind.upper(), rsql, on[0])
                 sx = "(join %s %s %s %s %d %d)" % (kind, sx, rsx, on[1], la, len(rcols))
             scope_cols = scope_cols + rscope
@@ -455,6 +473,31 @@ class Gen:
                     wsql, wsx = e
                 else:
                     wsql, wsx = "(%s AND %s)" % (wsql, e[0]), "(and %s %s)" % (wsx, e[1])
+            if r.chance(35):
+                # an OR of ANDs of single-table predicates over several tables, some branches not mentioning a
+                # table at all (the optimizer derives per-table OR filters from such predicates)
+                cs = [c for c in scope.cols if c.ty in ("i32", "i64")]
+                if len(cs) >= 2:
+                    branches = []
+                    for _ in range(2 + r.below(3)):
+                        atoms = []
+                        for c in r.shuffle(cs)[:1 + r.below(2)]:
+                            l = self.lit(c.ty)
+                            op = r.choice(["eq", "eq", "lt", "ge"])
+                            sym = {"eq": "=", "lt": "<", "ge": ">="}[op]
+                            atoms.append(("(%s %s %s)" % (c.sql, sym, l[0]), "(cmp %s (col 0 %d) %s)" % (op, c.idx, l[1])))
+                        bsql, bsx = atoms[0]
+                        for a in atoms[1:]:
+                            bsql, bsx = "(%s AND %s)" % (bsql, a[0]), "(and %s %s)" % (bsx, a[1])
+                        branches.append((bsql, bsx))
+                    osql, osx = branches[0]
+                    for b in branches[1:]:
+                        osql, osx = "(%s OR %s)" % (osql, b[0]), "(or %s %s)" % (osx, b[1])
+                    classes.add("or_of_ands")
+                    if wsql is None:
+                        wsql, wsx = osql, osx
+                    else:
+                        wsql, wsx = "(%s AND %s)" % (wsql, osql), "(and %s %s)" % (wsx, osx)
         grouped = force_global_agg or (self.o["groups"] and not plain and r.chance(35))
         names, types, sel_sql, sel_sx = [], [], [], []
         gsx, hsql, hsx, gsql = "-", None, "-", None
